@@ -317,6 +317,8 @@ struct ReadCase {
     version: u8,
     spelling: Spelling,
     two_d: bool,
+    /// the data starts at a multiple of this many bytes (64 as numpy writes today; 16 and 1: not a multiple of 64)
+    align: usize,
 }
 
 fn build_read_case(c: &ReadCase) -> (Vec<u8>, Vec<usize>, Vec<u64>) {
@@ -339,7 +341,7 @@ fn build_read_case(c: &ReadCase) -> (Vec<u8>, Vec<usize>, Vec<u64>) {
         data.extend_from_slice(b);
         expect.push(*e);
     }
-    (synth(c.version, &dict, &data), shape, expect)
+    (crate::npyref::synth_aligned(c.version, &dict, &data, c.align), shape, expect)
 }
 
 fn bits_match(ty: &str, got: f64, expect_bits: u64) -> bool {
@@ -370,7 +372,7 @@ fn eval_read(c: &ReadCase) -> Option<Viol> {
             ("expect_bits", J::Arr(expect.iter().map(|b| J::s(format!("{b:016x}"))).collect())),
         ])
     };
-    let class = format!("{}{},v{}", c.order, c.ty, c.version);
+    let class = format!("{}{},v{}{}", c.order, c.ty, c.version, if c.align != 64 { ",header-not-64-aligned" } else { "" });
     match catch(|| Array::read_npy(&bytes[..]).map(|a| (a.shape().to_vec(), a.as_slice().to_vec()))) {
         Ok(Ok((s, vals))) => {
             if s != shape {
@@ -648,7 +650,14 @@ pub fn run(tier: Tier) -> i32 {
                         if !two_d && s.shape_trailing_comma {
                             continue;
                         }
-                        cases.push(ReadCase { ty, order, version, spelling: s.clone(), two_d });
+                        cases.push(ReadCase { ty, order, version, spelling: s.clone(), two_d, align: 64 });
+                        // headers that do not end at a multiple of 64 bytes, under the default spelling
+                        // and one other
+                        if spelling_class(s) == "numpy-default" || (s.quote == '"' && !s.trailing_comma && s.colon_spaces == (1, 1) && s.comma_spaces == (1, 1) && s.key_order == [2, 0, 1]) {
+                            for align in [16, 1] {
+                                cases.push(ReadCase { ty, order, version, spelling: s.clone(), two_d, align });
+                            }
+                        }
                     }
                 }
             }
@@ -657,7 +666,7 @@ pub fn run(tier: Tier) -> i32 {
     let res = par_map(cases.len(), |i| eval_read(&cases[i]));
     let mut nt = 0u64;
     for (c, v) in cases.iter().zip(res) {
-        if c.order == '>' || c.version > 1 || spelling_class(&c.spelling) != "numpy-default" {
+        if c.order == '>' || c.version > 1 || c.align != 64 || spelling_class(&c.spelling) != "numpy-default" {
             nt += 1;
         }
         if let Some((k, w, j)) = v {
@@ -673,7 +682,7 @@ pub fn run(tier: Tier) -> i32 {
         extra: vec![],
     });
     {
-        let c = ReadCase { ty: "i2", order: '>', version: 2, spelling: sp[sp.len() / 3].clone(), two_d: true };
+        let c = ReadCase { ty: "i2", order: '>', version: 2, spelling: sp[sp.len() / 3].clone(), two_d: true, align: 64 };
         let (bytes, shape, expect) = build_read_case(&c);
         rep.sample(J::obj([
             ("descr", J::s(">i2")),
@@ -793,6 +802,22 @@ pub fn run(tier: Tier) -> i32 {
         exhaustive: true,
         extra: vec![],
     });
+    {
+        // the same conversions written and routed in every other way
+        let mut sp: Vec<(Vec<String>, Vec<u8>)> = Vec::new();
+        for shape in [vec![5usize], vec![2, 3], vec![3, 2, 2]] {
+            let vals = values_for(&shape);
+            let text = format!("#SHAPE=<{}>\n{}\n", shape.iter().map(|n| n.to_string()).collect::<Vec<_>>().join("/"), vals.iter().map(|v| format!("{v:?}")).collect::<Vec<_>>().join(" "));
+            let strs = |a: &[&str]| -> Vec<String> { a.iter().map(|x| x.to_string()).collect() };
+            sp.push((strs(&["view", "-O", "npy"]), text.clone().into_bytes()));
+            sp.push((strs(&["view", "--output-format", "npy", "--precision", "3"]), text.clone().into_bytes()));
+            let npy = run_sfs(&["view", "-O", "npy"], Stdin::Bytes(text.as_bytes()), &scratch).stdout;
+            sp.push((strs(&["view", "--precision", "17"]), npy.clone()));
+            sp.push((strs(&["view", "-O", "npy"]), npy.clone()));
+            sp.push((strs(&["fold", "--precision", "17"]), npy));
+        }
+        super::spelling_part(&mut rep, "C15", "text -> npy, npy -> text, npy -> npy and fold of an npy file for three shapes", &sp, &scratch);
+    }
     {
         let (n, v) = check_large_arrays();
         for (k, w, j) in v {
